@@ -21,6 +21,7 @@ mod c06;
 mod c10;
 mod c13;
 mod c14;
+mod c17;
 
 type CheckFn = fn(&Ctx);
 type ReplayFn = fn(&serde_json::Value) -> Result<(), String>;
@@ -41,6 +42,7 @@ fn checks() -> Vec<Check> {
         Check { id: "C10", level: "model_checking", run: c10::run, replay: Some(c10::replay) },
         Check { id: "C13", level: "model_checking", run: c13::run, replay: Some(c13::replay) },
         Check { id: "C14", level: "model_checking", run: c14::run, replay: Some(c14::replay) },
+        Check { id: "C17", level: "model_checking", run: c17::run, replay: Some(c17::replay) },
     ]
 }
 
